@@ -11,7 +11,7 @@ use rustc_driver::Compilation;
 use rustc_hir::def::DefKind;
 use rustc_hir::def_id::{DefId, LOCAL_CRATE};
 use rustc_middle::mir::{self, AggregateKind, Operand, Place, ProjectionElem, Rvalue, StatementKind, TerminatorKind};
-use rustc_middle::ty::{self, Ty, TyCtxt};
+use rustc_middle::ty::{self, Ty, TyCtxt, TypeVisitableExt};
 use std::fmt::Write as _;
 
 fn esc(s: &str) -> String {
@@ -374,7 +374,14 @@ fn dump_adts<'tcx>(tcx: TyCtxt<'tcx>, out: &mut String) {
                         if !firstf { out.push(','); }
                         firstf = false;
                         let fty = tcx.type_of(f.did).skip_binder();
-                        let _ = write!(out, "{{\"name\":{},\"ty\":{},\"vis\":{}}}", esc(&f.name.to_string()), esc(&tystr(fty)), esc(&format!("{:?}", f.vis)));
+                        // evaluate array lengths given by named constants (non-generic types only)
+                        let mut shown = tystr(fty);
+                        if let ty::Array(_, _) = fty.kind() {
+                            if !fty.has_param() {
+                                if let Ok(n) = tcx.try_normalize_erasing_regions(ty::TypingEnv::fully_monomorphized(), ty::Unnormalized::new(fty)) { shown = tystr(n); }
+                            }
+                        }
+                        let _ = write!(out, "{{\"name\":{},\"ty\":{},\"vis\":{}}}", esc(&f.name.to_string()), esc(&shown), esc(&format!("{:?}", f.vis)));
                     }
                     out.push_str("]}");
                 }
